@@ -33,6 +33,9 @@ type StructResult struct {
 }
 
 type Plan struct {
+	// BoundedRun: labelled bounded stand-ins (exhaustive runs of the real code within a stated bound) for
+	// functions the contracts cannot reach; reported separately, never counted as proved.
+	BoundedRun  func(outDir string) []BoundedResult
 	LockMode    bool // lock tracking (C20)
 	ID          string
 	Patterns    []string
@@ -339,6 +342,23 @@ func Check(id, tier string, seed int) int {
 			violations = append(violations, fmt.Sprintf("VIOLATION property=%s replay=%s no-failing-input-found", id, rp))
 		}
 	}
+	var boundedEv []map[string]interface{}
+	if p.BoundedRun != nil {
+		for _, br := range p.BoundedRun(outDir) {
+			boundedEv = append(boundedEv, map[string]interface{}{"name": br.Name, "bound": br.Bound, "cases": br.Cases, "held": br.OK, "label": "bounded (exhaustive within the bound on the real code; not a proof, not counted in obligations/discharged)"})
+			if k, ok := knownByName[br.Name]; ok {
+				nKnown++
+				if !br.OK {
+					fmt.Printf("KNOWN-FINDING: property=%s %s %s\n", id, br.Name, k.Text)
+				}
+				continue
+			}
+			if !br.OK {
+				fmt.Printf("FAILED-OBLIGATION %s (bounded stand-in, real code)\n   %s\n", br.Name, br.Detail)
+				violations = append(violations, fmt.Sprintf("VIOLATION property=%s replay=%s", id, br.Replay))
+			}
+		}
+	}
 	if nObl == 0 {
 		fmt.Printf("ENGINE-ERROR property=%s generated no obligations\n", id)
 		engineErr = true
@@ -371,7 +391,7 @@ func Check(id, tier string, seed int) int {
 		"cover_not_refuted":        nCoverOK,
 		"known_findings":           nKnown,
 		"not_covered":              p.NotCovered,
-		"bounded_standins":         p.Bounded,
+		"bounded_standins":         boundedEv,
 		"samples":                  samples,
 	}
 	os.MkdirAll(filepath.Join(verif, "evidence"), 0o755)
